@@ -123,6 +123,7 @@ unsafe impl GlobalAlloc for TrackAlloc {
                     status,
                     rsize: r.size,
                     ralign: r.align,
+                    tid: crate::ev::tid(),
                 });
                 LOG.unlock();
                 // quarantined: really freed in reset()
